@@ -1,9 +1,10 @@
-import A2Verif.Lemmas.FsProdosPutC
+import A2Verif.Lemmas.FsProdosPutT5
 /-!
-# `write_file`: the whole loop (files of at most 256 chunks)
+# `write_file`: the whole loop
 
-`sap_loop`: the sapling rounds; `write_loop`: rounds `0 … end-1` from the state `write_file` starts in.  The result is a
-seedling (`end = 1`) described by `SeedInv` or a sapling described by `SapInv`.
+`sap_loop`: the sapling rounds; `tree_loop`: the tree rounds; `write_loop`: rounds `0 … end-1` from the state `write_file`
+starts in.  The result is a seedling (`end = 1`) described by `SeedInv`, a sapling (`end ≤ 256`) described by `SapInv` or a
+tree described by `TreeInv`.
 -/
 namespace A2Verif.FsProdos
 open A2Verif.Fs.Prodos
@@ -27,21 +28,62 @@ theorem sap_loop {f : FImg} {d2 : Disk} {bm cnt : Nat} {e0 : Bytes} (ctx : LoopC
     rw [bind_ok _ _ dc d1 _ h1]
     exact h2
 
+theorem wfLoop_append (f : FImg) (end_ : Nat) : ∀ (l1 l2 : List Nat) (s : WS),
+    wfLoop f end_ (l1 ++ l2) s = (wfLoop f end_ l1 s).bind (fun s' => wfLoop f end_ l2 s')
+  | [], l2, s => by
+    funext d; rfl
+  | c :: l1, l2, s => by
+    funext d
+    have h1 : wfLoop f end_ (c :: l1 ++ l2) s d = M.bind (wfStep f end_ c s) (fun s' => wfLoop f end_ (l1 ++ l2) s') d := rfl
+    have h2 : wfLoop f end_ (c :: l1) s = M.bind (wfStep f end_ c s) (fun s' => wfLoop f end_ l1 s') := rfl
+    rw [h1, h2]
+    unfold M.bind
+    cases h : wfStep f end_ c s d with
+    | mk r d' =>
+      cases r with
+      | error e => rfl
+      | ok s1 =>
+        simp only
+        rw [wfLoop_append f end_ l1 l2 s1]
+        rfl
+
+theorem tree_loop {f : FImg} {d2 : Disk} {bm cnt : Nat} {e0 : Bytes} (ctx : LoopCtx d2 bm cnt) (end_ : Nat)
+    (hbytes : ∀ k data, f.chunks.lookup k = some data → ∀ x ∈ data, x < 256) :
+    ∀ (n c : Nat) (s : WS) (dc : Disk) (Al : List Nat) (G : List (Nat × List Nat)) (P : List Nat),
+      TreeInv f d2 bm cnt e0 c s dc Al G P → 1 ≤ s.indexCount → c + n ≤ 32768 →
+      allocCount f (c + n) ≤ (freeBlocks (effBuf d2 bm cnt) d2.total).length →
+      ∃ s' d' Al' G' P', wfLoop f end_ (List.range' c n) s dc = (.ok s', d') ∧ TreeInv f d2 bm cnt e0 (c + n) s' d' Al' G' P' ∧
+        1 ≤ s'.indexCount
+  | 0, c, s, dc, Al, G, P, inv, hic, _, _ => ⟨s, dc, Al, G, P, rfl, inv, hic⟩
+  | n + 1, c, s, dc, Al, G, P, inv, hic, hle, hfit => by
+    obtain ⟨s1, d1, Al1, G1, P1, h1, inv1, hic1⟩ := tree_round ctx inv hic (by omega)
+      (Nat.le_trans (allocCount_mono f (by omega)) hfit) hbytes end_
+    obtain ⟨s2, d2', Al2, G2, P2, h2, inv2, hic2⟩ := tree_loop ctx end_ hbytes n (c + 1) s1 d1 Al1 G1 P1 inv1 hic1 (by omega)
+      (by rw [show c + 1 + n = c + (n + 1) by omega]; exact hfit)
+    refine ⟨s2, d2', Al2, G2, P2, ?_, by rw [show c + (n + 1) = c + 1 + n by omega]; exact inv2, hic2⟩
+    rw [List.range'_succ]
+    unfold wfLoop
+    simp only [bind_def]
+    rw [bind_ok _ _ dc d1 _ h1]
+    exact h2
+
 /-- the state `write_file` starts the loop in -/
 def ws0 (ent : Bytes) : WS :=
   { storage := stSeedling, masterBuf := zeros blockSize, masterPtr := 0, masterCount := 0,
     indexBuf := zeros blockSize, indexPtr := 0, indexCount := 0, entry := ent }
 
-/-- **the loop of `write_file`** for a file image whose chunks have indices below 256 -/
+/-- **the loop of `write_file`** -/
 theorem write_loop {f : FImg} {d2 : Disk} {bm cnt : Nat} {e0 ent : Bytes} {nb : Nat} (ctx : LoopCtx d2 bm cnt)
     (hent : EFacts e0 ent 1 nb 0)
     (hnb : ∀ p, (List.range d2.total).find? (freeB (effBuf d2 bm cnt)) = some p → p = nb)
-    (hfh : d2.src.firstHole = true) (h1 : 1 ≤ f.end_) (h256 : f.end_ ≤ 256)
-    (hfit : dataCount f f.end_ + (if f.end_ > 1 then 1 else 0) ≤ (freeBlocks (effBuf d2 bm cnt) d2.total).length)
+    (hfh : d2.src.firstHole = true) (h1 : 1 ≤ f.end_) (hend : f.end_ ≤ 32768)
+    (hfit : allocCount f f.end_ ≤ (freeBlocks (effBuf d2 bm cnt) d2.total).length)
     (h0 : f.end_ = 1 → hasChunk f 0 = true)
     (hbytes : ∀ k data, f.chunks.lookup k = some data → ∀ x ∈ data, x < 256) :
     ∃ s dc Al, wfLoop f f.end_ (rng 0 f.end_) (ws0 ent) d2 = (.ok s, dc) ∧
-      ((f.end_ = 1 ∧ SeedInv f d2 bm cnt e0 nb s dc Al) ∨ (2 ≤ f.end_ ∧ ∃ P, SapInv f d2 bm cnt e0 f.end_ s dc Al P)) := by
+      ((f.end_ = 1 ∧ SeedInv f d2 bm cnt e0 nb s dc Al) ∨
+       (2 ≤ f.end_ ∧ f.end_ ≤ 256 ∧ ∃ P, SapInv f d2 bm cnt e0 f.end_ s dc Al P) ∨
+       (256 < f.end_ ∧ ∃ G P, TreeInv f d2 bm cnt e0 f.end_ s dc Al G P ∧ 1 ≤ s.indexCount)) := by
   have hrng : rng 0 f.end_ = 0 :: List.range' 1 (f.end_ - 1) := by
     unfold rng
     rw [show f.end_ - 0 = (f.end_ - 1) + 1 by omega, List.range'_succ]
@@ -49,8 +91,11 @@ theorem write_loop {f : FImg} {d2 : Disk} {bm cnt : Nat} {e0 ent : Bytes} {nb : 
     by_cases he : f.end_ = 1
     · have := h0 he
       have hd : dataCount f 1 = 1 := by rw [dataCount_succ, dataCount_zero, this]; rfl
-      rw [he, hd] at hfit; omega
-    · rw [if_pos (by omega)] at hfit; omega
+      rw [he, allocCount_small f 1 (by omega), hd] at hfit; omega
+    · have := allocCount_mono f (show 2 ≤ f.end_ by omega)
+      rw [allocCount_small f 2 (by omega)] at this
+      simp only [show (2 : Nat) > 1 from by omega, ↓reduceIte] at this
+      omega
   obtain ⟨s1, d1, Al1, hr0, inv0⟩ := seed_round0 (f := f) ctx (ws0 ent) rfl rfl rfl rfl rfl hent hnb hfit1 hbytes f.end_
   by_cases he : f.end_ = 1
   · refine ⟨s1, d1, Al1, ?_, Or.inl ⟨he, inv0⟩⟩
@@ -62,20 +107,48 @@ theorem write_loop {f : FImg} {d2 : Disk} {bm cnt : Nat} {e0 ent : Bytes} {nb : 
     rw [bind_ok _ _ d2 d1 _ hr0]
     rfl
   · have he2 : 2 ≤ f.end_ := by omega
-    rw [if_pos (by omega)] at hfit
-    obtain ⟨s2, d2', Al2, P2, hr1, inv1⟩ := seed_round1 ctx inv0 hfh
-      (Nat.le_trans (Nat.succ_le_succ (dataCount_mono f he2)) hfit) hbytes f.end_
-    obtain ⟨s3, d3, Al3, P3, hr2, inv2⟩ := sap_loop ctx f.end_ hbytes (f.end_ - 2) 2 s2 d2' Al2 P2 inv1 (by omega)
-      (by rw [show 2 + (f.end_ - 2) = f.end_ by omega]; exact hfit)
-    rw [show 2 + (f.end_ - 2) = f.end_ by omega] at inv2
-    refine ⟨s3, d3, Al3, ?_, Or.inr ⟨he2, P3, inv2⟩⟩
-    rw [hrng, show f.end_ - 1 = (f.end_ - 2) + 1 by omega, List.range'_succ]
-    unfold wfLoop
-    simp only [bind_def]
-    rw [bind_ok _ _ d2 d1 _ hr0]
-    unfold wfLoop
-    simp only [bind_def]
-    rw [bind_ok _ _ d1 d2' _ hr1]
-    exact hr2
+    have hsmall : ∀ m, 2 ≤ m → m ≤ 256 → m ≤ f.end_ → dataCount f m + 1 ≤ (freeBlocks (effBuf d2 bm cnt) d2.total).length := by
+      intro m h2 h256 hm
+      have := allocCount_mono f hm
+      rw [allocCount_small f m h256, if_pos (by omega)] at this
+      omega
+    obtain ⟨s2, d2', Al2, P2, hr1, inv1⟩ := seed_round1 ctx inv0 hfh (hsmall 2 (by omega) (by omega) he2) hbytes f.end_
+    by_cases h256 : f.end_ ≤ 256
+    · obtain ⟨s3, d3, Al3, P3, hr2, inv2⟩ := sap_loop ctx f.end_ hbytes (f.end_ - 2) 2 s2 d2' Al2 P2 inv1 (by omega)
+        (by rw [show 2 + (f.end_ - 2) = f.end_ by omega]; exact hsmall _ he2 h256 (Nat.le_refl _))
+      rw [show 2 + (f.end_ - 2) = f.end_ by omega] at inv2
+      refine ⟨s3, d3, Al3, ?_, Or.inr (Or.inl ⟨he2, h256, P3, inv2⟩)⟩
+      rw [hrng, show f.end_ - 1 = (f.end_ - 2) + 1 by omega, List.range'_succ]
+      unfold wfLoop
+      simp only [bind_def]
+      rw [bind_ok _ _ d2 d1 _ hr0]
+      unfold wfLoop
+      simp only [bind_def]
+      rw [bind_ok _ _ d1 d2' _ hr1]
+      exact hr2
+    · -- a tree
+      obtain ⟨s3, d3, Al3, P3, hr2, inv2⟩ := sap_loop ctx f.end_ hbytes 254 2 s2 d2' Al2 P2 inv1 (by omega)
+        (hsmall 256 (by omega) (by omega) (by omega))
+      obtain ⟨s4, d4, Al4, G4, P4, hr3, inv3, hic3⟩ := tree_conv ctx inv2 (Nat.le_trans (allocCount_mono f (by omega)) hfit) hbytes f.end_
+      obtain ⟨s5, d5, Al5, G5, P5, hr4, inv4, hic5⟩ := tree_loop ctx f.end_ hbytes (f.end_ - 257) 257 s4 d4 Al4 G4 P4 inv3 hic3
+        (by omega) (by rw [show 257 + (f.end_ - 257) = f.end_ by omega]; exact hfit)
+      rw [show 257 + (f.end_ - 257) = f.end_ by omega] at inv4
+      refine ⟨s5, d5, Al5, ?_, Or.inr (Or.inr ⟨by omega, G5, P5, inv4, hic5⟩)⟩
+      have hsplit : List.range' 1 (f.end_ - 1) = 1 :: (List.range' 2 254 ++ 256 :: List.range' 257 (f.end_ - 257)) := by
+        rw [show f.end_ - 1 = (254 + ((f.end_ - 257) + 1)) + 1 by omega, List.range'_succ, ← List.range'_append_1]
+        simp only [Nat.reduceAdd]
+        rw [List.range'_succ (s := 256)]
+      rw [hrng, hsplit]
+      unfold wfLoop
+      simp only [bind_def]
+      rw [bind_ok _ _ d2 d1 _ hr0]
+      unfold wfLoop
+      simp only [bind_def]
+      rw [bind_ok _ _ d1 d2' _ hr1]
+      rw [wfLoop_append, bind_ok _ _ d2' d3 _ hr2]
+      unfold wfLoop
+      simp only [bind_def]
+      rw [bind_ok _ _ d3 d4 _ hr3]
+      exact hr4
 
 end A2Verif.FsProdos
